@@ -293,7 +293,12 @@ func main() {
 			pos := 1 + r.Intn(len(ops)/2+1)
 			out := append([]wl.Op{}, ops[:pos]...)
 			out = append(out, ins...)
-			return append(out, ops[pos:]...)
+			out = append(out, ops[pos:]...)
+			if r.Chance(1, 8) {
+				// ordinals past 255 (no longer one byte), issued in bulk and one by one, then a restart and the final lookups
+				out = append(out, wl.Op{Kind: "next", N: 245 + r.Intn(20), K: 0}, wl.Op{Kind: "genpub"}, wl.Op{Kind: "genpub"}, wl.Op{Kind: "genpub"}, wl.Op{Kind: "restart"}, wl.Op{Kind: "genpub"})
+			}
+			return out
 		},
 		Nontrivial: func(e *wl.Env) bool {
 			n := 0
